@@ -1997,16 +1997,19 @@ class IMAPClientCommand:
         MUST be interpreted as INBOX not as an astring.  Refer to section 5.1
         for further semantic details of mailbox names.
         """
-        # We must match the case insensitive string 'mailbox' first because
-        # our other mailbox names are case sensitive.
+        # Our other mailbox names are case sensitive, 'inbox' is not. It has
+        # to be the whole name (or the whole first part of the name, for the
+        # mailboxes below the inbox) for that: `inboxes` and `inbox-old` are
+        # mailboxes of their own.
         #
-        mbox_name = self._p_simple_string("inbox", silent=True)
-        if mbox_name is None:
-            mbox_name = self._p_astring()
-        if mbox_name != "":
-            return os.path.normpath(mbox_name)
-        else:
+        mbox_name = self._p_astring()
+        if mbox_name == "":
             return mbox_name
+        mbox_name = os.path.normpath(mbox_name)
+        head, sep, rest = mbox_name.partition("/")
+        if head.lower() == "inbox":
+            mbox_name = "inbox" + sep + rest
+        return mbox_name
 
     #######################################################################
     #
